@@ -18,7 +18,9 @@ non-trivial = codec != null, or >=2 blocks, or non-empty user metadata, or refer
 
 pub fn run(tape: &[u8], ctx: &mut Ctx) {
 	let mut t = Tape::new(tape);
-	let hc = HistCfg { allow_bad: false, allow_big: false, max_ops: 6, codecs: ALL_CODECS, user_meta: true };
+	// (failing values and buffer-boundary sized blocks are included: the layout of what reaches the
+	// file must be right in those histories too)
+	let hc = HistCfg { allow_bad: true, allow_big: true, max_ops: 6, codecs: ALL_CODECS, user_meta: true };
 	let Some(h) = gen_hist(&mut t, ctx, "C06", &hc) else { return };
 	let env = Env::new(&h.case.schema);
 	ctx.label(format!("codec:{}", h.codec.name()));
@@ -29,6 +31,7 @@ pub fn run(tape: &[u8], ctx: &mut Ctx) {
 		// ---------------- direction W: crate writes ----------------
 		ctx.label("direction:crate-writes");
 		let mut sc = SerializerConfig::new(&h.case.crate_schema);
+		sc.allow_slow_sequence_to_bytes();
 		let mut accepted = Vec::new();
 		let bytes = {
 			let mut w = match build_writer(&mut sc, &h, Vec::new()) {
